@@ -2016,3 +2016,19 @@ mod long_term_cred_mech_tests {
         assert!(client.signal_protection_violated_on_timeout(msg.transaction_id()));
     }
 }
+
+#[cfg(feature = "verif-hooks")]
+impl LongTermCredentialClient {
+    /// Credential state tag and violated transactions (verification hook, read-only)
+    pub fn verif_state(&self) -> (String, Vec<TransactionId>) {
+        (
+            format!(
+                "long-term user={:?} state={:?} params={:?}",
+                self.user_name.as_str(),
+                self.state,
+                self.params
+            ),
+            self.validator.verif_violated(),
+        )
+    }
+}
